@@ -48,6 +48,17 @@ def run(ck):
                 extra = "(include helper.clib)" if with_inc else ""
                 src = srcgen.render(r["prog"], d, extra_forms=extra)
                 jobs.append((r, d, src, with_inc))
+        # embedded data files found through the search path, holding atoms whose conversion depends on the integer mode
+        # (zero-valued non-empty atoms, zero-prefixed numbers): every entry point must carry them identically
+        embeds = {"zero.hex": "00", "zeros.hex": "ff00ff820000ff01ff0080", "lead.hex": "ff8200ffff83000001ff8200800180", "txt.bin": "\x00", "data.sexp": "(0x00 0x0000 0 1 0x0001 \"\")"}
+        for fn, content in embeds.items():
+            open(os.path.join(inc, fn), "w").write(content)
+        for d, sig in srcgen.SIGILS.items():
+            if not sig:
+                continue
+            for fn in embeds:
+                kind = {"hex": "hex", "bin": "bin", "sexp": "sexp"}[fn.split(".")[1]]
+                jobs.append(({"prog": {"tag": "embed"}}, d, "(mod (X) %s (embed-file EMB %s %s) (c EMB X))" % (sig, kind, fn), True))
         # library entry point (text) and its symbol-free CLVM
         lib_lines = ["compile\t1\t%s\t%s" % (inc, j[2].encode().hex()) for j in jobs]
         lib = vlib.impl(lib_lines, timeout_line=90)
@@ -95,10 +106,12 @@ def run(ck):
             for name, text in (("run-O", o_run), ("run", o_run0), ("cldb-O", cp), ("cldb", cp0)):
                 if text is None or text == "":
                     continue
-                if d == "classic":
+                if d in ("classic", "cl21", "strict21", "cl22", "cl23"):
+                    # printed programs of the legacy-integer dialects are read with the classic assembler (what brun / opc
+                    # do with them): the modern reader is documented as lossy for zero-prefixed atoms in legacy mode (C09)
                     plines.append("assemble\t" + text.encode().hex())
                 else:
-                    plines.append("parse_modern\t%s\t%s" % ("1" if d in ("cl23.1", "cl24") else "0", text.encode().hex()))
+                    plines.append("parse_modern\t1\t%s" % text.encode().hex())
                 pidx.append((k, name))
             if f2f:
                 plines.append("deser\t" + f2f)
@@ -121,7 +134,12 @@ def run(ck):
                 if got != libcode:
                     direct.append({"clause": "%s output differs from the library entry point's program" % name, "dialect": d, "source": src,
                                    "library": libcode[:300], name: (got or "(no output)")[:300], "raw": (outs[k][0] if name == "run-O" else "")[:200]})
-            if d != "classic" and lr0.startswith("OK "):
+            if d != "classic" and parsed.get((k, "run")) != parsed.get((k, "cldb")):
+                direct.append({"clause": "the debugger (no -O) compiles the source to a different program than the command-line compiler with the same flags", "dialect": d, "source": src,
+                               "run": (parsed.get((k, "run")) or "(no output)")[:300], "cldb": (parsed.get((k, "cldb")) or "(no output)")[:300]})
+            # the unoptimised text of the legacy-integer dialects prints zero-prefixed atoms lossily (documented, C09): the
+            # comparison with the byte-producing entry point is made only for programs without embedded data
+            if d != "classic" and lr0.startswith("OK ") and r["prog"].get("tag") != "embed":
                 c0 = "OK " + lr0[3:].split("\t")[0]
                 for name in ("run", "cldb"):
                     got = parsed.get((k, name))
